@@ -92,9 +92,48 @@ def step_coq(log):
     return rc, out
 
 
-def vo_fresh(vfile):
+_DEPS = None
+
+
+def coq_deps():
+    """X.v (relative to coq/) -> list of the .vo files it requires, from coq_makefile's dependency file."""
+    global _DEPS
+    if _DEPS is None:
+        _DEPS = {}
+        try:
+            for ln in open(os.path.join(COQ, ".Makefile.d")):
+                if ".required_vo:" not in ln:
+                    continue
+                lhs, rhs = ln.split(":", 1)
+                tgt = lhs.split()[0]
+                _DEPS[tgt[:-1]] = [d for d in rhs.split() if d.endswith(".vo")]
+        except OSError:
+            pass
+    return _DEPS
+
+
+def vo_fresh(vfile, _seen=None):
+    """The compiled file exists and is at least as new as its source AND as every compiled file it requires
+    (recursively): after a failed `make -k` a stale .vo of a dependant must not count as a discharged obligation."""
     vo = vfile[:-2] + ".vo"
-    return os.path.exists(vo) and os.path.getmtime(vo) >= os.path.getmtime(vfile)
+    if not os.path.exists(vo) or os.path.getmtime(vo) < os.path.getmtime(vfile):
+        return False
+    _seen = _seen if _seen is not None else {}
+    if vfile in _seen:
+        return _seen[vfile]
+    _seen[vfile] = True
+    rel = os.path.relpath(vfile, COQ)
+    ok = True
+    for d in coq_deps().get(rel, []):
+        dv = os.path.join(COQ, d[:-1])
+        dvo = os.path.join(COQ, d)
+        if not os.path.exists(dv):
+            continue
+        if not vo_fresh(dv, _seen) or os.path.getmtime(dvo) > os.path.getmtime(vo) + 1e-6:
+            ok = False
+            break
+    _seen[vfile] = ok
+    return ok
 
 
 def step_runner(log):
@@ -325,7 +364,20 @@ def main():
         m = re.search(r'File "\./((?:props|theories)/[A-Za-z0-9_]+\.v)", line (\d+)[^\n]*\n(Error:[^\n]*(?:\n[^\n]+){0,6})', mkout)
         if m:
             err = "%s line %s: %s" % (m.group(1), m.group(2), re.sub(r"\s+", " ", m.group(3))[:600])
-        broken.append(("proof", "props/%s.vo does not build: %s" % (pid, err)))
+        diag = ""
+        if cfg.get("diagnose"):
+            # what the model expects and what the source now says (evaluated by coqc)
+            df = os.path.join(wd, "diag_%s.v" % pid)
+            with open(df, "w") as f:
+                f.write(cfg["diagnose"])
+            _, dout = sh(["coqc", "-Q", os.path.join(COQ, "theories"), "Scrapli", df], cwd=wd, timeout=300)
+            for ext in (".vo", ".vok", ".vos", ".glob"):
+                try:
+                    os.remove(df[:-2] + ext)
+                except OSError:
+                    pass
+            diag = " || diagnosis: " + re.sub(r"\s+", " ", dout)[:1500]
+        broken.append(("proof", "props/%s.vo does not build: %s%s" % (pid, err, diag)))
     bad_words = forbidden_scan()
     if bad_words:
         broken.append(("forbidden-construct", "; ".join(bad_words[:10])))
